@@ -43,3 +43,10 @@ add("C13", "exploration",
     "the lines the device model actually received are compared with a reference computed from the device's own output and the list in force; random longer lists and "
     "hostile placements (split across reads, broken by escape/CR, echo-only, case variant) included. Not a proof: only the modelled device behaviours were exercised.",
     "DESIGN.md §3 C13", "real generic/network drivers against a causal two-mode CLI device model; reference contains-any over rendered output vs Failed flags, aggregate/collapsed errors and the device's received-line log")
+
+add("C19", "exploration",
+    "Exploration. Every one of the 45 option functions x 5 constructor kinds x 7 transport contexts is exercised alone, twice and with an invalid value. "
+    "4 000 (quick) / 200 000 (thorough) PRNG option lists, including full 45-option permutations, repeated settings and generated platform definitions over all "
+    "15 recognised option names with and without the matching user option, are compared field-for-field (all public fields plus logger/transport wiring) against "
+    "a documentation-derived effect table folded left to right. Logger delivery is checked per layer on live sessions over device models. Values come from fixed pools.",
+    "DESIGN.md §3 C19", "differential runtime monitor: option effect table folded over PRNG option lists vs whole-object reflective snapshots of the real constructors; behavioural logger delivery over device models")
